@@ -11,6 +11,7 @@ mod plevel_logic;
 mod plevel_global;
 mod lp;
 mod mlevel;
+mod mroutes;
 mod fi;
 mod limits;
 mod gac;
@@ -45,6 +46,8 @@ fn main() {
         "lower" => mlevel::run_lower,
         "msolve" => mlevel::run_msolve,
         "mspell" => mlevel::run_mspell,
+        "rlower" => mroutes::run_rlower,
+        "rsolve" => mroutes::run_rsolve,
         "fi" => fi::run_fi,
         "ctxf" => fi::run_ctxf,
         "limits" => limits::run_case,
